@@ -33,12 +33,19 @@ def Chk.str (c : Chk) : String := s!"{c.a} {c.b}"
 
 def func! (s : String) : Func := if s == "sqrt" then .sqrt else .cnst
 
-partial def sweepLoop (f : Func) (L0 hi : Nat) (i : Nat) (c : Chk) : Chk :=
+/-- `GetItemCount` depends on the segment only: it is re-evaluated when the segment changes (memo of the
+    previous segment; the value is always `itemCount64 f L0 p.1`) -/
+partial def sweepLoop (f : Func) (L0 hi : Nat) (i : Nat) (c : Chk) (lastSeg lastCnt : Nat) : Chk :=
   if i < hi then
     let p := segItem64 f L0 i
+    let cnt := if p.1 == lastSeg then lastCnt else itemCount64 f L0 p.1
     let c := ((c.add p.1).add p.2).add (getIndex64 f L0 p.1 p.2)
-    sweepLoop f L0 hi (i + 1) (c.add (itemCount64 f L0 p.1))
+    sweepLoop f L0 hi (i + 1) (c.add cnt) p.1 cnt
   else c
+
+def sweep (f : Func) (L0 lo hi : Nat) : Chk :=
+  let s0 := (segItem64 f L0 lo).1
+  sweepLoop f L0 hi lo {} s0 (itemCount64 f L0 s0)
 
 partial def logLoop (wide : Bool) (hi : Nat) (v : Nat) (c : Chk) : Chk :=
   if v < hi then logLoop wide hi (v + 1) (c.add (if wide then log2db64 v else log2db32 v)) else c
@@ -81,7 +88,7 @@ def step (s : St) : List String → St × String
       let i := getIndex64 (func! f) (nat! L0) (nat! seg) (nat! item)
       let p := segItem64 (func! f) (nat! L0) i
       (s, s!"{i} {p.1} {p.2} {itemCount64 (func! f) (nat! L0) (nat! seg)}")
-  | ["sweep", f, L0, lo, hi] => (s, (sweepLoop (func! f) (nat! L0) (nat! hi) (nat! lo) {}).str)
+  | ["sweep", f, L0, lo, hi] => (s, (sweep (func! f) (nat! L0) (nat! lo) (nat! hi)).str)
   | ["new", f, L0] =>
       let t : St := { f := func! f, L0 := nat! L0, arr := {} }
       (t, showArr t)
